@@ -16,7 +16,7 @@ output order: omit-tag guard, attributes left to right, then the content.
 """
 from __future__ import annotations
 
-from .env import (EXISTS_CAUGHT, PIPE_CAUGHT, BadHtml, BadIter, Handler,
+from .env import (EXISTS_CAUGHT, PIPE_CAUGHT, BadHtml, BadIter, BadSeq, Handler,
                   Html, Probe, default_marker)
 
 
@@ -134,6 +134,7 @@ class Model:
                 "type": self.error.type.__name__,
                 "args": list(getattr(exc, "args", ())),
                 "site": info[0] if info else None,
+                "oid": self.fail_oid.get(id(exc)),
                 # the failure happened in the same render function as the
                 # handler (not inside a macro call or slot content)?
                 "same_function": bool(info) and info[1] == self.fn_depth})
@@ -337,7 +338,7 @@ class Model:
             try:
                 items = list(seq) if seq is not None else []
             except BaseException as exc:
-                if isinstance(seq, BadIter):
+                if isinstance(seq, (BadIter, BadSeq)):
                     self.fail_stack[id(exc)] = list(self.use_stack)
                     self.fail_info[id(exc)] = (seq.site, self.fn_depth)
                     self.fail_oid[id(exc)] = self.last_oid.get(seq.site)
